@@ -185,7 +185,8 @@ impl SetSketchParams {
         //
         let loadfile = fileres.unwrap();
         let reader = BufReader::new(loadfile);
-        let hll_parameters: Self = serde_json::from_reader(reader).unwrap();
+        let hll_parameters: Self = serde_json::from_reader(reader)
+            .map_err(|e| format!("SetSketchParams reload_json could not parse file : {}", e))?;
         //
         Ok(hll_parameters)
     } // end of reload_json
